@@ -295,6 +295,12 @@ GFF_FEATS = [
     [Feature("mRNA", [Location(1, 10, FW), Location(20, 30, RV)], {"ID": "rna0"})],
     [Feature("mRNA", [Location(1, 10, RV), Location(20, 30, FW), Location(40, 45, RV)], {"ID": "rna1", "Note": "trans spliced"})],
     [Feature("gene", [Location(5, 8, FW)], {"ID": "a"}), Feature("exon", [Location(6, 7, RV)], {"ID": "b"})],
+    # features without an ID are separate features, also next to each other
+    [Feature("gene", [Location(1, 10, FW)], {"Name": "g"}), Feature("exon", [Location(2, 5, FW)], {"Name": "e"})],
+    [Feature("gene", [Location(1, 10, FW)], {}), Feature("exon", [Location(2, 5, RV)], {}), Feature("region", [Location(1, 100, FW)], {"Note": "r"})],
+    [Feature("CDS", [Location(1, 10, FW), Location(20, 30, FW)], {"ID": "c1"}), Feature("gene", [Location(1, 40, FW)], {"Name": "x"}),
+     Feature("exon", [Location(1, 10, FW)], {"Name": "y"}), Feature("region", [Location(1, 50, FW)], {})],
+    [Feature("gene", [Location(1, 10, FW)], {"Name": "same"}), Feature("gene", [Location(20, 30, FW)], {"Name": "same"})],
 ]
 for feats in GFF_FEATS:
     R.check("GFF3 annotation round trip (locations with strand, qualifiers)", "gff annotation", {"features": repr(feats)},
